@@ -1,5 +1,6 @@
 import Summer.Props.C02
 import Summer.Props.C02Solvers
+import Summer.Proofs.ListLemmas
 /-
 C02 (open models): the accounting identity along fixed-step trajectories.
 
@@ -132,6 +133,50 @@ theorem rk4_total_balance (m : Model α) (b : Backend) (hp : prepare m = .ok b)
   exact h1
 
 example : rk4Step (fun _ _ => [(3 : ℚ)]) (1/2) [10] 0 = [23/2] := by decide +kernel
+
+/-- Telescoped accounting over a whole fixed-step trajectory: row `k` of `solvers.euler` has
+`L row_k = L y0 + h · Σ_{i<k} L (f row_i times[i])` — for every grid and every `k` — so the total at any
+output time is the initial total plus the step times the accumulated net (entry − exit) rates. -/
+theorem euler_telescope {n : Nat} {L : List α → α} (hL : LinOn n L) (f : List α → α → List α)
+    (hf : ∀ y t, y.length = n → (f y t).length = n) (y0 : List α) (hy0 : y0.length = n) (times : List α)
+    (k : Nat) (hk : k < (euler f y0 times).length) :
+    L ((euler f y0 times)[k]) =
+      L y0 + (times.getD 1 0 - times.getD 0 0) *
+        sumL ((List.range k).map (fun i => L (f ((euler f y0 times).getD i []) (times.getD i 0)))) := by
+  induction k with
+  | zero =>
+    have : (euler f y0 times)[0] = y0 := by simp only [euler_eq_scanl]; exact List.getElem_scanl_zero ..
+    simp [this, sumL]
+  | succ k ih =>
+    have hk' : k < (euler f y0 times).length := by omega
+    have hlen : (euler f y0 times).length = (times.take (times.length - 1)).length + 1 := by
+      simp only [euler_eq_scanl, List.length_scanl]
+    have ht : k < (times.take (times.length - 1)).length := by omega
+    rw [euler_rows_balance hL f hf y0 hy0 times k hk hk' ht, ih hk', List.range_succ, List.map_append,
+      Summer.Proofs.sumL_append]
+    have e1 : (euler f y0 times).getD k [] = (euler f y0 times)[k] := by
+      simp [List.getD_eq_getElem?_getD, hk']
+    have e2 : times.getD k 0 = (times.take (times.length - 1))[k] := by
+      have : k < times.length := by simp at ht; omega
+      simp [List.getD_eq_getElem?_getD, this, List.getElem_take]
+    simp only [List.map_cons, List.map_nil, sumL, e1, e2]
+    ring
+
+/-- The same on a prepared model: the total population at output row `k` of `solvers.euler` is the initial
+total plus `h ·` the accumulated (entry − exit) totals at the earlier rows — and nothing else. -/
+theorem euler_total_telescope (m : Model α) (b : Backend) (hp : prepare m = .ok b)
+    (rates : List α → α → List α) (n : Nat)
+    (hlen : ∀ y t, y.length = n → (compRates b (rates y t) : List α).length = n)
+    (y0 : List α) (hy0 : y0.length = n) (times : List α)
+    (k : Nat) (hk : k < (euler (fun y t => compRates b (rates y t)) y0 times).length) :
+    sumL ((euler (fun y t => compRates b (rates y t)) y0 times)[k]) =
+      sumL y0 + (times.getD 1 0 - times.getD 0 0) *
+        sumL ((List.range k).map (fun i =>
+          Spec.entryTotal m (rates ((euler (fun y t => compRates b (rates y t)) y0 times).getD i []) (times.getD i 0)) -
+          Spec.exitTotal m (rates ((euler (fun y t => compRates b (rates y t)) y0 times).getD i []) (times.getD i 0)))) := by
+  have h := euler_telescope (linOn_sumL n) (fun y t => compRates b (rates y t)) hlen y0 hy0 times k hk
+  simp only [Summer.C02.total_rate m b hp] at h
+  exact h
 end Summer.Props.C02Open
 
 #print axioms Summer.Props.C02Open.eulerStep_balance
@@ -141,3 +186,5 @@ end Summer.Props.C02Open
 #print axioms Summer.Props.C02Open.euler_total_closed
 #print axioms Summer.Props.C02Open.rk4Step_balance
 #print axioms Summer.Props.C02Open.rk4_total_balance
+#print axioms Summer.Props.C02Open.euler_telescope
+#print axioms Summer.Props.C02Open.euler_total_telescope
